@@ -75,6 +75,23 @@ def worker_init(x64, repo: str) -> None:
         jax.config.update('jax_enable_x64', True)
 
 
+def _trim_memory(limit_mb: int = 1200) -> None:
+    """Long-lived workers accumulate compiled XLA executables (one per distinct expression): past the limit the JAX
+    compilation caches are dropped.  Only JAX's own caches - nothing the library keeps is touched."""
+    try:
+        with open('/proc/self/statm') as f:
+            rss_mb = int(f.read().split()[1]) * os.sysconf('SC_PAGE_SIZE') // (1 << 20)
+    except (OSError, ValueError, IndexError):
+        return
+    if rss_mb > limit_mb:
+        import gc
+
+        import jax
+
+        jax.clear_caches()
+        gc.collect()
+
+
 def run_shard(target: str, phase: str, cases: list, ctx: dict) -> dict:
     modname, fname = target.split(':')
     fn = getattr(importlib.import_module(modname), fname)
@@ -83,6 +100,7 @@ def run_shard(target: str, phase: str, cases: list, ctx: dict) -> dict:
 
     vid.install()
     v0 = (vid.stats['calls'], vid.stats['reused'])
+    _trim_memory()
     try:
         out = fn(phase, cases, ctx)
     except (CaseTimeout, Exception) as first:
@@ -153,6 +171,11 @@ class Pools:
             )
         return self._pools[x64]
 
+    def drop(self, mode) -> None:
+        p = self._pools.pop(mode, None)
+        if p is not None:
+            p.shutdown(wait=False, cancel_futures=True)
+
     def close(self) -> None:
         for p in self._pools.values():
             p.shutdown(wait=False, cancel_futures=True)
@@ -172,17 +195,28 @@ def run_phase(pools: Pools, phase: dict, ctx: dict, seed: int, log=print) -> dic
     random.Random(seed).shuffle(order)
     chunk = max(1, int(phase.get('chunk') or max(1, n // (pools.jobs * 6) or 1)))
     shards = [[cases[i] for i in order[k : k + chunk]] for k in range(0, n, chunk)]
-    pool = pools.get('late' if phase.get('x64') == 'late' else bool(phase.get('x64', False)))
+    mode = 'late' if phase.get('x64') == 'late' else bool(phase.get('x64', False))
     merged: dict = {}
     t0 = time.time()
-    futs = [pool.submit(run_shard, phase['target'], phase['name'], s, ctx) for s in shards]
-    done = 0
-    try:
-        for f in as_completed(futs):
-            merged = merge(merged, f.result())
-            done += 1
-    except BrokenProcessPool as e:
-        raise HarnessError(f'worker pool died in phase {phase["name"]}: {e}')
+    pending = list(range(len(shards)))
+    restarts = 0
+    while pending:
+        # a worker killed from outside (the kernel's OOM killer on a crowded machine) takes the whole pool with it: the shards
+        # that had not finished are run again on a fresh pool, twice at most; every shard's result is merged exactly once
+        pool = pools.get(mode)
+        futs = {pool.submit(run_shard, phase['target'], phase['name'], shards[i], ctx): i for i in pending}
+        finished = set()
+        try:
+            for f in as_completed(futs):
+                merged = merge(merged, f.result())
+                finished.add(futs[f])
+        except BrokenProcessPool as e:
+            restarts += 1
+            if restarts > 2:
+                raise HarnessError(f'worker pool died in phase {phase["name"]}: {e}')
+            log(f'[phase {phase["name"]}] a worker process was killed; restarting the pool for the {len(pending) - len(finished)} unfinished shards')
+            pools.drop(mode)
+        pending = [i for i in pending if i not in finished]
     if merged.get('n', 0) != n:
         raise HarnessError(
             f'phase {phase["name"]}: executed {merged.get("n")} cases of {n} declared - not exhaustive'
